@@ -139,7 +139,7 @@ class Built:
                 if ann.get('prefix') is not None:
                     kw['component_name_prefix'] = ann['prefix']
                 if ann.get('examples'):
-                    kw['examples'] = [openapi.MethodExample(params={'a': 1}, result=1, summary='ex')]
+                    kw['examples'] = [openapi.MethodExample(params={'a': 1}, result=None if ann['examples'] == 'null' else 1, summary='ex')]
                 if ann.get('servers'):
                     kw['servers'] = [openapi.Server(url='http://srv')]
                 if ann.get('security'):
@@ -148,8 +148,9 @@ class Built:
                     openapi.annotate(**kw)(f)
             else:
                 if ann.get('examples'):
-                    kw['examples'] = [openrpc.MethodExample(name='ex', params=[openrpc.ExampleObject(name='a', value=1)],
-                                                            result=openrpc.ExampleObject(name='r', value=1))]
+                    nul = ann['examples'] == 'null'          # an example whose value is null is still an example with a value
+                    kw['examples'] = [openrpc.MethodExample(name='ex', params=[openrpc.ExampleObject(name='a', value=None if nul else 1)],
+                                                            result=openrpc.ExampleObject(name='r', value=None if nul else 1))]
                 if ann.get('servers'):
                     kw['servers'] = [openrpc.Server(name='s', url='http://srv')]
                 if kw:
@@ -348,8 +349,8 @@ def generate(tier, rng):
                 ann['description'] = f'description {j}'
             if rng.random() < 0.2:
                 ann['deprecated'] = True
-            if rng.random() < 0.25:
-                ann['examples'] = True
+            if rng.random() < 0.3:
+                ann['examples'] = rng.choice([True, True, 'null'])
             if rng.random() < 0.2:
                 ann['servers'] = True
             if kind == 'openapi':
@@ -366,6 +367,8 @@ def generate(tier, rng):
                        default_prefix=rng.choice(['', '', 'D']) if kind == 'openapi' else '', status_map=status_map)
         if rng.random() < 0.35:
             cs['pregen'] = True
+        if kind == 'openapi' and rng.random() < 0.5:
+            cs['served'] = rng.choice(['', '', '/openapi.json', '/spec'])
         yield cs
     # the canonical D13 / D14 / D15 / D22 probes
     yield make_case('openapi', [{'template': 'scalar', 'endpoint': '', 'name': 'a', 'ann': {'cell': 0}},
@@ -417,6 +420,13 @@ def run_impl(c):
     except Exception as e:  # noqa
         out['raised'] = core.exc_name(e)
     out.pop('_first', None)
+    if c.get('served') is not None and c['kind'] == 'openapi' and 'raised' not in out:
+        try:
+            out['served_equal'] = served_equals_direct(c, b)
+        except Exception as e:  # noqa
+            out['served_equal'] = f'raised {core.exc_name(e)}'
+        if out['served_equal'] is not True:
+            out['problems'].append({'k': 'served-differs', 'what': str(out['served_equal'])[:300], 'generation': 0})
     after = b.snapshot()
     out['mutated'] = [k for k in before if before[k] != after[k]]
     out['heap_after'] = [[_code_of(n) for n in after['lists'].get(i, [ERR[e].__name__ for e in cell])] for i, cell in enumerate(c['heap'])]
@@ -430,6 +440,32 @@ def run_impl(c):
             alone.append({'raised': core.exc_name(e)})
     out['alone'] = alone
     return out
+
+
+def served_equals_direct(c, b):
+    """the document an integration serves on its spec route is the document `generate_spec` gives for the endpoint path"""
+    import flask
+    from pjrpc.server.integration import flask as fl
+    spec = b.spec
+    spec._path = c['served']                       # where the document is served, relative to the endpoint ('' = on the endpoint itself)
+    base = '/api/v1'
+    rpc = fl.JsonRPC(base, spec=spec)
+    for ep, m in b.methods:
+        if not ep.strip('/'):
+            rpc.dispatcher.add_methods(m)
+    for ep in sorted({e.strip('/') for e, _ in b.methods if e.strip('/')}):
+        d = rpc.add_endpoint('/' + ep)
+        d.add_methods(*[m for e, m in b.methods if e.strip('/') == ep])
+    app = flask.Flask(f'verif-spec-{id(b)}')
+    rpc.init_app(app)
+    resp = app.test_client().get(base + c['served'])
+    if resp.status_code != 200:
+        return f'GET {base + c["served"]} -> {resp.status_code}'
+    served = json.loads(resp.get_data().decode())
+    direct = json.loads(json.dumps(rpc.generate_spec(spec, path=base), cls=SpecEncoder))
+    if served == direct:
+        return True
+    return {'served_paths': sorted(served.get('paths', {}))[:4], 'direct_paths': sorted(direct.get('paths', {}))[:4]}
 
 
 def _code_of(class_name):
@@ -534,6 +570,8 @@ def oracle(prop, c, out):
             fail(key, f'the generated document does not validate against the official meta-schema: {p["what"]}', p)
         elif p['k'] == 'dangling-ref':
             fail('dangling-ref', f'dangling $ref: {p["refs"][:3]}', p)
+        elif p['k'] == 'served-differs':
+            fail('served-differs', f'the document served by the integration differs from the generated one: {p["what"]}', p)
         else:
             fail('not-deterministic', 'repeating the generation yields a different document', p)
     if out['mutated']:
